@@ -129,3 +129,6 @@ Definition cyc_from (g : graph) (e : Z) : bool :=
 
 (* the check as run by SCOPEresolve_subsupers: once from every entity *)
 Definition cyc_any (g : graph) : bool := existsb (fun kv => cyc_from g (fst kv)) g.
+
+(* a call ERRORreport*( code, ..., a1 .. ak ) hands k arguments to the conversions of the code's format *)
+Definition site_ok (s : Z * Z) : bool := (e_nargs (entry (fst s)) =? snd s) && (0 <=? fst s) && (fst s <? Z.of_nat (length err_table)).
